@@ -211,8 +211,11 @@ def run_check(pid, tier, seed):
     ev = {'property_id': pid, 'tier': tier, 'seed': seed, 'level': 'proof', 'coverage': cov,
           'assumptions': list(getattr(mod, 'ASSUMPTIONS', [])), 'wall_s': round(time.time() - t0, 2),
           'violations': violations}
-    os.makedirs(os.path.join(core.VERIF, 'evidence'), exist_ok=True)
-    with open(os.path.join(core.VERIF, 'evidence', pid + '.json'), 'w') as f:
+    # evidence/ holds runs against /repo itself only; runs against a scratch tree (VERIF_REPO) go to _build/
+    evdir = os.path.join(core.VERIF, 'evidence') if os.path.realpath(core.REPO) == '/repo' \
+        else os.path.join(core.BUILD, 'evidence_scratch')
+    os.makedirs(evdir, exist_ok=True)
+    with open(os.path.join(evdir, pid + '.json'), 'w') as f:
         json.dump(ev, f, indent=1, default=repr)
         f.write('\n')
     for ln in lines:
